@@ -430,7 +430,10 @@ def reverse(ck, rng, orc, cap, i):
         err = rng.choice([0, 0, -22, -3, -17, -12, -1, -95, -524, -512, -41, -58, -4095, -133])
         pid = rng.choice([os.getpid(), 0, 12345, 0xFFFFFFFF, os.getpid() ^ 1])
         cap.sent.clear()
-        case = {'kind': 'reply', 'errno': err, 'reply_port_id': pid}
+        # the verdict may also be LOST on its way to the daemon: recv() on the request socket fails (ENOBUFS: the kernel dropped a message for this socket; EAGAIN,
+        # ENOMEM). What the kernel decided is then unknown: a request it REFUSED must never be reported as done
+        lost = rng.choice([None, None, None, None, None, 105, 105, 11, 12])
+        case = {'kind': 'reply', 'errno': err, 'reply_port_id': pid, 'recv_fails_with': lost}
 
         class Hook:
             pass
@@ -448,6 +451,11 @@ def reverse(ck, rng, orc, cap, i):
                 cap.reply = bytes.fromhex(orc.cmd(f'K err={err} pid={pid} req={bytes(data).hex()}')['hex'])
                 return r
             s.send = send
+            if lost is not None:
+                def recv(n):
+                    cap.reply = None
+                    raise OSError(lost, os.strerror(lost))
+                s.recv = recv
             return s
         saved = r_netlink.NetlinkProtocol._get_socket
         r_netlink.NetlinkProtocol._get_socket = classmethod(lambda cls, groups: socket_factory(groups))
@@ -475,12 +483,23 @@ def reverse(ck, rng, orc, cap, i):
                     r_xfrm.Xfrm.flush_sas()
             except r_netlink.NetlinkError as ex:
                 raised = ex
+            except OSError as ex:
+                if lost is None or ex.errno != lost:
+                    ck.violation(f'send_recv-raised-{type(ex).__name__}', {'exc': repr(ex)[:160]}, case)
+                    return
+                raised = ex
             except Exception as ex:
                 ck.violation(f'send_recv-raised-{type(ex).__name__}', {'exc': repr(ex)[:160]}, case)
                 return
         finally:
             r_netlink.NetlinkProtocol._get_socket = saved
             cap.reply = None
+        if lost is not None:
+            ck.count('reverse.reply.verdict_lost_in_recv.' + ('refusal' if err else 'ack'))
+            ck.nontrivial(('reply-lost', err, lost, case.get('through')))
+            if err != 0 and raised is None:
+                ck.violation(f"request-the-kernel-refused-reported-as-done-when-the-verdict-was-lost-in-recv:{case.get('through')}", {'errno': err, 'recv_errno': lost}, case)
+            return
         ck.count('reverse.reply.' + ('ack' if err == 0 else 'error'))
         ck.nontrivial(('reply', err, pid == os.getpid()))
         if err == 0 and raised is not None:
@@ -535,6 +554,7 @@ def run(ck):
 
 
 def verdict(ck):
+    ck.floor('refusals of the kernel whose reply was lost in recv() (ENOBUFS, EAGAIN, ENOMEM)', ck.counters['reverse.reply.verdict_lost_in_recv.refusal'], 60)
     c = ck.counters
     ck.floor('NEWSA requests decoded by the C oracle', c['forward.NEWSA'], 800)
     ck.floor('NEWPOLICY requests decoded', c['forward.NEWPOLICY'], 400)
